@@ -138,7 +138,8 @@ def make_wrapper(
             This means that those changes can be reverted from this point out.
             """
             self._configurable.commit()
-            object.__setattr__(self, "_reuse_pt", 0)
+            # the configuration itself doesn't change, so cached attributes stay
+            # valid; never move the reuse point back to a value they may carry.
 
         def changes_count(self):
             """current commit point for the configurable"""
@@ -207,7 +208,13 @@ def make_wrapper(
                 if attr == self._configurable_name:
                     entry_point = self.changes_count()
                     try:
-                        list(map(self._configurable.remove, vals))
+                        for x in vals:
+                            try:
+                                self._configurable.remove(x)
+                            except KeyError:
+                                # already disabled, and pinned that way
+                                pass
+                        object.__setattr__(self, "_reuse_pt", self._reuse_pt + 1)
                         return True
                     except Unchangable:
                         self.rollback(entry_point)
